@@ -117,3 +117,12 @@ claim("C08",
            "A8: joblib is modelled as a sequential map - real thread interleavings are outside this technique (one schedule-dependence was found by the "
            "bounded stand-in and repaired).",
       technique="deductive verification: mask gather/scatter lemmas (rank/unrank), Trace clauses; z3 5.1 raced with z3 4.8.12")
+claim("C10",
+      text="Proof (recursive contracts, any tree shape by induction on subtree height, any number of rows): node.predict_proba gives every row the probabilities of "
+           "the classifier at which its path ends (ghost P unfolded one level; boolean-mask gather/scatter lemmas); node.predict is 1 iff that probability of "
+           "class 1 is >= 0.5; node.decision_path marks in the row's matrix line exactly the node indices on that same path (same test probability > "
+           "threshold) and writes nothing else (ghost inverse of the injective row-index vector, derived for masked sub-vectors from the mask's rank). "
+           "Bounded: fitted trees for 4 seeds x 4 depths x 3 algorithms: rows sum to one, predict vs classes_, node indices distinct and < n_nodes_, "
+           "depth <= max_depth, get_leaves_index, path recomputed from the member classifiers, ties at the threshold (stump members).",
+      note="Member classifiers obey the estimator protocol (assumed). fit / fit_improve / get_leaves_index are bounded only.",
+      technique="deductive verification: recursive contracts over ghost functions P and onpath, mask lemmas; z3 5.1 raced with z3 4.8.12")
